@@ -260,6 +260,10 @@ fn gen(seed: u64, idx: usize) -> Hostile {
         }
         _ => {}
     }
+    // a lower bound on the step size (Radau and BDF honour it): a step that fails at the bound cannot be repeated for ever
+    if matches!(method, Method::RADAU | Method::BDF) && (idx / (6 * KINDS.len())) % 2 == 1 && kind != 12 {
+        scn.min_step = Some((xend - x0).abs() * *rng.pick(&[1e-9, 1e-6, 1e-3]));
+    }
     if kind == 11 {
         // the reported value at t = xend must be finite under Success
         scn.t_eval = Some(vec![x0, 0.5 * (x0 + xend), xend]);
@@ -385,7 +389,7 @@ fn run_child(seed: u64, idx: usize) -> ChildResult {
 
 pub fn run(ctx: &Ctx) -> (Report, Meta) {
     let meta = Meta::new(
-        "hostile right-hand sides, one solve_ivp call per child process: finite-time blow-up (y^2, 1+y^2, exp(y), singularity at several distances and on either side of the origin), sqrt leaving its domain (also with the boundary reached exactly at xend), NaN / +inf returned after a time or in a region of state space or at the initial point, bounded discontinuous forcing, stiff decay (rates 1e4..1e6) with explicit methods, zero right-hand side over spans up to 1e6, NaN in a single component of three, -inf after a time, a sliding mode (y' = -k sign y), right-hand sides of size 1e300..1e307 (internal overflow), one blowing-up component among three, a state-dependent jump of size 3..100; x 6 methods x {unlimited step budget, max_steps 10..1e4} x {plain, t_eval, dense_output, events} x {forward, time-reflected backward}; a child that exhausts 2e7 right-hand-side evaluations without progress (the smallest |t - x0| evaluated in a window of 1e6 calls does not grow between the last two windows) (or 60 s of CPU time) is a bounded-work violation; non-trivial = child whose right-hand side actually returned a non-finite value or whose run ended with a non-success status (distinct by case index)",
+        "hostile right-hand sides, one solve_ivp call per child process: finite-time blow-up (y^2, 1+y^2, exp(y), singularity at several distances and on either side of the origin), sqrt leaving its domain (also with the boundary reached exactly at xend), NaN / +inf returned after a time or in a region of state space or at the initial point, bounded discontinuous forcing, stiff decay (rates 1e4..1e6) with explicit methods, zero right-hand side over spans up to 1e6, NaN in a single component of three, -inf after a time, a sliding mode (y' = -k sign y), right-hand sides of size 1e300..1e307 (internal overflow), one blowing-up component among three, a state-dependent jump of size 3..100; x 6 methods x {unlimited step budget, max_steps 10..1e4} x {plain, t_eval, dense_output, events} x {forward, time-reflected backward} x {no min_step, min_step = 1e-9..1e-3 of the interval for Radau and BDF}; a child that exhausts 2e7 right-hand-side evaluations without progress (the smallest |t - x0| evaluated in a window of 1e6 calls does not grow between the last two windows) (or 60 s of CPU time) is a bounded-work violation; non-trivial = child whose right-hand side actually returned a non-finite value or whose run ended with a non-success status (distinct by case index)",
     )
     .assume("termination is decided as bounded work: logical budget of 2e7 evaluations (>= 1000 x what a terminating solver needs on these problems) plus stall detection; budget exhaustion with continuing progress and the 180 s wall-clock watchdog are inconclusive, never violations")
     .assume("fixed-step RK4 is not error controlled: non-finite values and integration past a singularity are not violations for it")
